@@ -1,5 +1,5 @@
 (* C18 - Settings are validated; no accepted configuration can panic. *)
-From GD Require Import Base.Prelude Model.Strings Model.Buffer Model.Net Model.Valve Model.Settings.
+From GD Require Import Base.Prelude Model.Strings Model.StrOps Model.Buffer Model.Net Model.Valve Model.Settings.
 From GD Require Import Proofs.Msafe Proofs.ValveTotal Proofs.SettingsProofs.
 
 (* every public construction path (constructor, Default, command-line flags,
